@@ -355,6 +355,14 @@ async def e2e(net, hyg, plan):
         if plan.get("now2") and shim_ok:
             # the same server process lists the same entries again at another 'current time': what is formatted and parsed
             # follows that time (nothing about an earlier listing is remembered)
+            if plan.get("shift_mtimes"):
+                # ... and the entries were all touched again, the same time span later: the date columns read the same as
+                # before and mean another year
+                delta = plan["now2"] - now
+                for name_ in list(entries):
+                    typ_, size_, mtime_ = entries[name_]
+                    entries[name_] = (typ_, size_, mtime_ + delta)
+                table.update(entries)
             now = plan["now2"]
             _Clock.now = now
             for name_, (typ_, size_, mtime_) in list(entries.items()):
@@ -395,7 +403,11 @@ async def fs_listing(net, hyg, plan):
             else:
                 with open(fp, "wb") as f:
                     f.write(b"x" * size)
-            os.utime(fp, (mtime, mtime))
+            if i % 5 == 4:
+                # written just now (with whatever fraction of a second the file system records): hour and minute are shown
+                mtime = os.stat(fp).st_mtime
+            else:
+                os.utime(fp, (mtime, mtime))
             entries[name] = (typ, size, mtime)
         factory = aioftp.PathIO if plan["fs"] == "pathio" else aioftp.AsyncPathIO
         server = aioftp.Server([aioftp.User(base_path=root)], path_io_factory=factory, **({"encoding": enc} if enc else {}))
@@ -405,7 +417,7 @@ async def fs_listing(net, hyg, plan):
         c = aioftp.Client(path_io_factory=aioftp.MemoryPathIO, **({"encoding": enc} if enc else {}))
         await c.connect("127.0.0.1", 2121)
         await c.login()
-        now = int(time.time())
+        now = time.time()      # (not truncated: an entry written in this very second is not in the future)
 
         def judge(kind, listed):
             want_names = sorted(entries)
@@ -485,6 +497,9 @@ def gen_cases(tier, seed):
                       "encoding": [None, None, "latin-1"][i % 3]})
         if i % 2 == 0 and plans[-1]["n"] <= 34:
             plans[-1]["now2"] = plans[-1]["now"] + rng.choice([60, 86400 * 30, 86400 * 200, 86400 * 400, -86400 * 200])
+            if i % 4 == 0:
+                plans[-1]["now2"] = plans[-1]["now"] + 86400 * rng.choice([365, 366, 730])
+                plans[-1]["shift_mtimes"] = True
     # the file-system back ends on a real directory (entries with real sizes and mtimes set by utime)
     for i in range(12 if tier == "quick" else 200):
         plans.append({"fs": ["pathio", "async"][i % 2], "seed": seed * 11 + i, "n": rng.choice([0, 1, 5, 31, 32, 33, 34, 64, 65, 66, 100, 130]),
